@@ -283,6 +283,16 @@ func recoverRightBytes(b []byte, pos hcl.Pos, f func(byteOffset int, r rune) boo
 	return []byte{}
 }
 
+// closedRange returns the given range with its end moved to its start
+// if the end precedes the start, which is what the parser leaves behind
+// for an unclosed expression (e.g. a function call without closing parenthesis)
+func closedRange(rng hcl.Range) hcl.Range {
+	if rng.End.Byte < rng.Start.Byte {
+		rng.End = rng.Start
+	}
+	return rng
+}
+
 // isObjectItemTerminatingRune returns true if the given rune
 // is considered a left terminating character for an item
 // in hclsyntax.ObjectConsExpr.
